@@ -407,7 +407,6 @@ package store
 //@ func (dr *dirRepo) gc$2() (err error)
 //@   assert [saves-the-collected-index]{C10} before "dr.indexSave(true)": dr.index.Manifests == i.Manifests && dr.index.Annotations == i.Annotations
 
-
 //@ -- ------------------------------------------------------------------
 //@ -- Object invariants of the repository objects that carry C18 / C20 across the store boundary: the index a repository
 //@ -- keeps is well-formed, its upload cache satisfies the cache invariant.  Assumed where a method is entered (through
